@@ -31,6 +31,25 @@ def measured_ties(ctx, kinds, bits_ok):
         ctx.oblige("tie:%s-protocol-exercised" % k, kinds.get(k, 0) >= 1, "no %s correspondence results" % k)
 
 
+def _sanitizer_fingerprint(out, lang):
+    """A report is identified by WHAT the sanitizer saw, not by the language it ran on: for leaks the
+    library function that allocated the leaked object (first frame inside /repo) and the object size;
+    for memory errors the kind and the faulting library function."""
+    if "LeakSanitizer" in out and "ERROR: AddressSanitizer:" not in out.replace("ERROR: LeakSanitizer", ""):
+        sites, sizes = set(), set()
+        for blk in re.split(r"\n(?=(?:Direct|Indirect) leak of )", out):
+            m = re.match(r"(?:Direct|Indirect) leak of (\d+) byte\(s\) in (\d+) object", blk)
+            if not m:
+                continue
+            f = re.search(r"in (\w+) /repo/", blk)
+            sites.add(f.group(1) if f else "?")
+            sizes.add(str(int(m.group(1)) // max(1, int(m.group(2)))))
+        return {"clause": "sanitizer", "report": "leak", "alloc_site": "+".join(sorted(sites)), "object_bytes": "+".join(sorted(sizes))}
+    k = re.search(r"AddressSanitizer: ([\w-]+)", out)
+    f = re.search(r"#\d+ 0x[0-9a-f]+ in (\w+) /repo/", out)
+    return {"clause": "sanitizer", "report": k.group(1) if k else "other", "site": f.group(1) if f else "?", "lang": lang}
+
+
 def sanitizer_search(ctx, langdirs):
     """SEARCH aid (never the claim): ASan+UBSan unity build with a generated parser compiled in."""
     rc, _ = sh("command -v clang")
@@ -57,7 +76,7 @@ def sanitizer_search(ctx, langdirs):
                 reports += 1
                 ctx.violation("judge", "sanitizer report (search aid) in the unity build for %s, `fuzz %d 1500`: %s" % (lang, seed, out[-600:]),
                               {"case": "asan-%s-%d" % (lang, seed), "spec": "fuzz %s %d 1500" % (lang, seed), "report": out[-3000:]},
-                              fingerprint={"clause": "sanitizer", "lang": lang})
+                              fingerprint=_sanitizer_fingerprint(out, lang))
     # the deterministic range-cursor inputs of the corpus (cr / lx protocols) under ASan: the guard
     # allocator of the unity driver is compiled out there, the sanitizer itself reports the access
     exe = next((os.path.join(ctx.workdir, "cunit_asan_" + l) for l in sorted(langdirs) if os.path.exists(os.path.join(ctx.workdir, "cunit_asan_" + l))), None)
@@ -186,6 +205,10 @@ def run(ctx):
             judge_bad += 1
             parts = kv["judge"].split(":")
             fp = {"clause": parts[1] if len(parts) > 1 else kv["judge"], "kind": kv["kind"]}
+            if fp["clause"] == "allocator-balance" and len(parts) > 4 and parts[2] == "detail":
+                # a leak attributed to one Query::new call: its outcome (ok / Syntax / Field / …) and the history kind
+                fp["leak_in"] = "Query::new:" + parts[4]
+                fp["hkind"] = kv.get("hkind", "?")
             if fp["clause"] == "out-of-bounds-read":
                 # site = the function whose read is out of bounds; access = oob | uaf (guard page of a live / freed block)
                 fp["site"] = parts[2] if len(parts) > 2 else "?"
